@@ -322,6 +322,9 @@ func runCheck(id, tier string) int {
 		if !keepWork {
 			_ = os.RemoveAll(work)
 		}
+		if r := os.Getenv("VERIF_REPO"); r != "" && r != "/repo" {
+			_ = os.Remove(bin) // binaries built against scratch trees are single-use
+		}
 	}()
 	replayDir := filepath.Join(root, "replays", id)
 	_ = os.MkdirAll(replayDir, 0o755)
